@@ -30,7 +30,7 @@ ASSUMPTIONS = [
     "subdomain/interface order is whatever mdg.subdomains()/interfaces() return (their sorting is C24's clause)",
     "values are read only for blocks written since their (re-)creation; stale data left by removed variables is not constrained",
 ]
-PROBES = ["observation_sparse", "observation_end", "caller_mutates_vector_after_set", "caller_mutates_returned_vector", "zero_size_block", "create_after_remove", "same_name_two_creations", "remove_by_name", "remove_by_md_variable", "remove_by_variable",
+PROBES = ["observation_sparse", "observation_end", "caller_edits_returned_variable_list", "caller_mutates_vector_after_set", "caller_mutates_returned_vector", "zero_size_block", "create_after_remove", "same_name_two_creations", "remove_by_name", "remove_by_md_variable", "remove_by_variable",
           "interface_variable", "face_or_node_dofs", "grids_passed_out_of_order", "additive_write", "subset_set_get", "rejected_duplicate_name",
           "rejected_unknown_variable", "rejected_dof_out_of_range", "rejected_both_grid_kinds", "rejected_no_grids", "rejected_bad_dof_type",
           "layout_ge_6_blocks", "empty_system_after_removals", "rejected_remove_after_live_prefix", "caller_reuses_and_mutates_dof_info_dict"]
@@ -118,6 +118,37 @@ def run_history_c05(ch, tr: Trace) -> None:
                 raise Violation("identify_dof", f"after {where}: identify_dof({i}) raised {e!r} for a valid index (num_dofs={total})", "identify_dof_raised")
             if v is not owner[i]["var"]:
                 raise Violation("identify_dof", f"after {where}: identify_dof({i}) = {v.name}@{grid_rank[v.domain]} but index {i} lies in the block of {label(owner[i])}")
+        # the same questions asked by *name* (a string selects every variable of that name, on any grid)
+        starts = {}
+        o2 = 0
+        for b in blocks:
+            starts[id(b)] = o2
+            o2 += b["size"]
+        for nm in NAMES:
+            mine = [b for b in blocks if b["name"] == nm]
+            exp_n = np.sort(np.concatenate([np.arange(starts[id(b)], starts[id(b)] + b["size"]) for b in mine])) if mine else np.empty(0, dtype=int)
+            try:
+                got_n = np.sort(np.asarray(es.dofs_of([nm])))
+            except Exception as e:  # noqa: BLE001
+                raise Violation("blocks_contiguous_in_order", f"after {where}: dofs_of(['{nm}']) raised {e!r} ({len(mine)} live variables of that name)", "dofs_of_by_name_raised")
+            if not np.array_equal(got_n, exp_n):
+                raise Violation("blocks_contiguous_in_order", f"after {where}: dofs_of(['{nm}']) = {got_n.tolist()}, the live variables of that name own {exp_n.tolist()}", "dofs_of_by_name")
+        # "all variables": the list handed out belongs to the caller, who may edit it
+        try:
+            lst = es.variables
+            if [v for v in lst] and ch.flag(1, 3):
+                lst.pop(ch.draw(len(lst)))
+                tr.probe("caller_edits_returned_variable_list")
+            lst2 = es.get_variables()
+            if len(lst2) != len(blocks) or {id(v) for v in lst2} != {id(b["var"]) for b in blocks}:
+                raise Violation("num_dofs", f"after {where}: get_variables() lists {len(lst2)} variables, {len(blocks)} are registered", "variable_listing")
+            if lst2 and ch.flag(1, 3):
+                lst2.clear()
+                tr.probe("caller_edits_returned_variable_list")
+        except Violation:
+            raise
+        except Exception as e:  # noqa: BLE001
+            raise Violation("num_dofs", f"after {where}: listing the variables raised {e!r}", "variable_listing_raised")
         if len(blocks) >= 6:
             tr.probe("layout_ge_6_blocks")
         if not blocks and ever_removed[0]:
